@@ -20,6 +20,7 @@ EVID = os.path.join(VERIF, "evidence")
 REPLAYS = os.path.join(VERIF, "replays")
 KNOWN = os.path.join(VERIF, "KNOWN_FINDINGS.txt")
 NCPU = os.cpu_count() or 4
+WARM_BASE = 1_000_000_000  # case indices at and above this are warm-up cases of a child process
 
 
 class HarnessError(Exception):
@@ -154,6 +155,25 @@ def run_child_cases(exe, scenario, seed, tier, shard, nshards, extra=None, timeo
             os.remove(log)
         if rc == 0:
             break
+        real_done = [x for x in done if x < WARM_BASE]
+        if pending is not None and pending["i"] >= WARM_BASE:
+            # crash inside the warm-up case (every target faked once): record it; nothing else can run
+            crash_sig = (pending.get("desc") or {}).get("crash_sig", "warmup")
+            if timed_out:
+                cases.append({"t": "outcome", "i": pending["i"], "class": pending.get("class", ""), "verdict": "inconclusive", "sig": "watchdog", "detail": {}})
+            else:
+                cases.append({"t": "outcome", "i": pending["i"], "class": pending.get("class", ""), "verdict": "violated", "sig": "crash:%s:%s" % (signame(rc), crash_sig), "detail": {"status": signame(rc), "stderr": err[-400:]}})
+            break
+        if rc == 75 and pending is None and not real_done and done:
+            break  # the warm-up case itself reported a violation
+        if rc == 75 and pending is None and real_done:
+            # the child asked to be restarted after a violation that may have corrupted its state
+            start = max(real_done) + 1
+            restarts += 1
+            if restarts > max_restarts:
+                notes.append("gave up after %d restarts" % restarts)
+                break
+            continue
         if pending is None:
             # died outside any case (start-up, summary) -> harness problem, not a verdict
             notes.append("child %s ended with %s outside any case: %s" % (scenario, "timeout" if timed_out else signame(rc), err[-300:]))
@@ -161,9 +181,9 @@ def run_child_cases(exe, scenario, seed, tier, shard, nshards, extra=None, timeo
                 break
             restarts += 1
             # nothing to skip: avoid looping forever
-            if not done:
+            if not real_done:
                 break
-            start = max(done) + 1
+            start = max(real_done) + 1
             continue
         i = pending["i"]
         if timed_out:
@@ -256,6 +276,17 @@ class Run:
 
     def add_case(self, engine, i, cls, verdict, sig="", detail=None):
         self.cases.append({"engine": engine, "i": i, "class": cls, "verdict": verdict, "sig": sig, "detail": detail or {}})
+
+    def void_if_unobserved(self, observed_something, reason):
+        """a run whose monitor observed nothing must not look like 'held': held cases become inconclusive
+        (violations found by other means stay)."""
+        if observed_something:
+            return
+        self.notes.append(reason)
+        for c in self.cases:
+            if c["verdict"] == "held":
+                c["verdict"] = "inconclusive"
+                c["sig"] = "monitor-observed-nothing"
 
     def observe(self, key, value):
         self.observed[key] = value
